@@ -69,12 +69,14 @@ def build(case):
     h, w = case["shape"]
     fr = BoolGridFrame(s, h, w)
     kw = {}
+    # "intflags": the same options given as 1 / 0 instead of True / False (truthiness, not identity, is what callers rely on)
+    flag = (lambda b: int(b)) if case.get("intflags") else (lambda b: b)
     if case["ugp"] != "default":
-        kw["use_graph_primitive"] = case["ugp"]
+        kw["use_graph_primitive"] = flag(case["ugp"])
     if case["api"] == "alias":
         passed, cross = graph.active_edges_single_cycle_crossable(s, fr, **kw)
     else:
-        passed, cross = graph.active_edges_connected_crossable(s, fr, single_cycle=case["cycle"], **kw)
+        passed, cross = graph.active_edges_connected_crossable(s, fr, single_cycle=flag(case["cycle"]), **kw)
     evars = [fr.horizontal[y, x] if a == "h" else fr.vertical[y, x] for a, y, x, _ in frame_edges(h, w)]
     return s, evars, passed, cross
 
@@ -162,6 +164,32 @@ def scale_cases(tier):
         for cycle in (False, True):
             for ugp in (False, True):
                 out.append({"shape": [k, k], "cycle": cycle, "api": "main", "ugp": ugp, "cfg": False, "patterns": pats})
+    # weaves: the longest self-crossing closed strands of mid-sized frames (found by a complete scan of the cycle space,
+    # tools/gen_weaves.py; only the inputs are stored, the oracle judges them here), each also opened and with a spur
+    import json
+    import os
+
+    weaves = json.load(open(os.path.join(harness.VERIF, "mc", "data", "weaves.json")))
+    boards = ["3x3", "3x4", "4x3", "4x4", "4x5", "5x4"] if tier == "quick" else sorted(weaves)
+    for name in boards:
+        h, w = (int(t) for t in name.split("x"))
+        pats = []
+        for k, entry in enumerate(weaves[name]):
+            pat = [bool(b) for b in entry["pattern"]]
+            pats.append(pat)
+            if k < 2 or tier != "quick":
+                opened = list(pat)
+                opened[pat.index(True)] = False
+                pats.append(opened)
+                if False in pat:
+                    spur = list(pat)
+                    spur[len(pat) - 1 - pat[::-1].index(False)] = True
+                    pats.append(spur)
+        for cycle in (False, True):
+            for ugp in (False, True):
+                if tier == "quick" and h * w >= 20 and ugp:
+                    continue
+                out.append({"shape": [h, w], "cycle": cycle, "api": "main", "ugp": ugp, "cfg": False, "patterns": pats, "family": "weave"})
     return out
 
 
@@ -197,6 +225,7 @@ def prepare(tier):
     global _CASES
     base_cases = cases_for(tier)
     used = [dict(c, used=True) for c in base_cases[:: (7 if tier == "quick" else 3)] if _small(c)]
+    used += [dict(c, intflags=True) for c in base_cases if c["api"] == "main" and c["ugp"] != "default" and nseg(c) <= (7 if tier == "quick" else 12) and nseg(c) >= 4]
     _CASES = base_cases + used + scale_cases(tier)
     return _CASES
 
@@ -228,7 +257,7 @@ def main(tier, seed, only=None):
         "exploration",
         "BoolGridFrame sizes %s; ALL 2^m segment subsets; single_cycle off/on and the single_cycle_crossable alias; auxiliary and "
         "native connectivity encodings (17-segment frames: auxiliary only).  Scale family (not exhaustive): the 7x7 frame (thorough 10x10) with loops in opposite corners, and on frames up to 4x4 / 3x5 (thorough 6x6) the perimeter, the serpentine "
-        "boundary, figure eights, two overlapping rectangles (two strands), disjoint cycles, an open perimeter.  Oracle: per-point degree rule (0/1/2/4, no 1 for "
+        "boundary, figure eights, two overlapping rectangles (two strands), disjoint cycles, an open perimeter; weaves: the longest self-crossing closed strands of the 3x3 .. 4x5 (thorough 5x5) frames from a complete scan of the cycle space, each also opened / with a spur; options also given as 1 / 0.  Oracle: per-point degree rule (0/1/2/4, no 1 for "
         "cycles, 4 only at interior points) and one strand in the segment graph where the two straight pairs pass through each other "
         "at 4-way points; for every admitted subset OR(returned != expected) over both returned arrays must be UNSAT."
         % ("0x0 .. 2x2 (<= 12 segments)" if tier == "quick" else "0x0 .. 2x2, 0x3, 1x3, 1x4, 2x3 and transposes (<= 17 segments)"),
